@@ -36,6 +36,9 @@ def gen_event_script(rng, case, tag, depth, next_tag, allow_nested=True):
             next_tag[0] += 1
             mi = rng.randrange(case['n_models'])
             sc.setdefault(key, []).append(['trig', mi, rng.choice(['go', 'go', 'stay']), nt])
+            # gather lets the event go on as soon as ONE child of the stage ends cancelled: a suspended sibling
+            # would let the event overtake its own nested call (not covered by the statement) — none here
+            sc.pop('%d:%s:1' % (tag, slot), None)
             gen_event_script(rng, case, nt, depth + 1, next_tag)
     if case['queued'] != 2 and case['n_models'] > 1 and rng.random() < 0.1:
         slot = rng.choice(asyncctl.TRANSITION_SLOTS)
@@ -93,13 +96,17 @@ def evaluate(cases):
         if c['queued'] and mon != 'ok' and r.hang is None:
             fs.append(Failure('monitor', 'verified-monitor.serialOK', c, {'monitor': mon},
                               signature=signature('serialOK')))
-        if acc != 'ok' and r.hang is None:
+        if acc != 'ok' and r.hang is None and not labs_race(r):
             k = int(acc.split()[1]) if acc.startswith('reject') else -1
             fs.append(Failure('correspondence', 'trace_inclusion', c,
                               {'model': acc, 'rejected_label': c08judge.show_label(r.labels[k]) if 0 <= k < len(r.labels) else None,
                                'labels_before': [c08judge.show_label(l) for l in r.labels[max(0, k - 12):k]]}))
         out.append((r, fs))
     return out
+
+
+def labs_race(run):
+    return bool(getattr(run.labels, 'race', False))
 
 
 def nontrivial(case, run):
@@ -138,6 +145,7 @@ def note_stats(st, case, run):
             inc('remove_model', 'calls')
     if case['protected']:
         inc('protected', 'cases')
+    inc('inclusion', 'skipped_exception_vs_cancel_race' if labs_race(run) else 'judged')
 
 
 # -------------------------------------------------------------------------------------------------
@@ -161,7 +169,7 @@ def all_schedules(case, limit):
     return
 
 
-def chunk(seed, idx, n_cases, per_case, big):
+def chunk(seed, idx, n_cases, per_case, big=False):
     rng = random.Random('C08/%d/%d/%s' % (seed, idx, big))
     ex = Exploration()
     exhaustive = 0
@@ -189,3 +197,184 @@ def chunk(seed, idx, n_cases, per_case, big):
     ex.stats['programs']['all_release_orders_enumerated'] = exhaustive
     ex.stats['programs']['total'] = n_cases
     return ex
+
+
+# -------------------------------------------------------------------------------------------------
+# shrinking
+# -------------------------------------------------------------------------------------------------
+
+def shrink_steps(case):
+    # drop a top-level trigger (only the last, so tags stay aligned), script entries, ops, protection, models
+    keys = sorted(case['script'])
+    for k in keys:
+        c = copy.deepcopy(case)
+        del c['script'][k]
+        yield c
+    for k in keys:
+        for j in range(len(case['script'][k])):
+            c = copy.deepcopy(case)
+            del c['script'][k][j]
+            if not c['script'][k]:
+                del c['script'][k]
+            yield c
+    if len(case['triggers']) > 2:
+        c = copy.deepcopy(case)
+        tag = len(c['triggers']) - 1
+        nested = [op[3] for ops in c['script'].values() for op in ops if op[0] == 'trig']
+        if not nested or min(nested) > tag + 0:
+            # nested tags are allocated above the top-level ones: dropping the last top-level trigger is
+            # only safe when no nested call exists
+            if not nested:
+                c['triggers'].pop()
+                c['script'] = {k: v for k, v in c['script'].items() if not k.startswith('%d:' % tag)}
+                c['protected'] = [p for p in c['protected'] if p != tag]
+                yield c
+    for p in case.get('protected', []):
+        c = copy.deepcopy(case)
+        c['protected'].remove(p)
+        yield c
+    if case['on_exc']:
+        c = copy.deepcopy(case)
+        c['on_exc'] = False
+        yield c
+    if case['hsm']:
+        c = copy.deepcopy(case)
+        c['hsm'] = False
+        yield c
+    if case['schedule']:
+        c = copy.deepcopy(case)
+        c['schedule'] = c['schedule'][:-1]
+        yield c
+
+
+def fails_like(kind, what):
+    def f(case):
+        (r, fs), = evaluate([case])
+        return any(x.kind == kind and x.what == what for x in fs)
+    return f
+
+
+class C08(runner.Check):
+    prop = 'C08'
+    level = 'proof'
+    theorems = ('TM.C08_queue_order', 'TM.C08_queue_serial', 'TM.C08_model_queue', 'TM.C08_fail_clears_own_queue',
+                'TM.C08_cancel_targets', 'TM.C08_cancelled_behaviour', 'TM.C08_state_not_overwritten',
+                'TM.C08_cancelled_returns_false', 'TM.C08_cleanup', 'TM.C08_registered_state',
+                'TM.C08_cancelled_returns_false_counterexample', 'TM.C08_cancel_takes_effect_partial')
+    manifest = dict(
+        level='proof', design='DESIGN.md 4/C08 + design_notes/C08.md',
+        text="Lean 4 theorems over the protocol-level transition system Model/AsyncSched.lean (tasks, async_tasks registry, "
+             "protected_tasks, current_context chains, shared / per-model queues with drain loop and clear-on-raise, "
+             "cancel_running_transitions, cancellation delivery, _trigger's except/finally, process_context), for ALL "
+             "configurations and ALL schedules (a schedule = the order of the trace's labels, induction over it): queue "
+             "order (no overlap + arrival order per queue key; one key for queued=True, one per model for 'model'), a "
+             "failing event clears only its own queue, the cancelled set = in-flight tasks of the model minus own chain "
+             "minus protected, a cancelled event never again starts a transition-stage callback / decides / writes the "
+             "state and still passes its finalize stage, CancelledError becomes False in the root task, registry = "
+             "in-flight tasks (empty at quiescence), model states stay registered. PARTIAL: asyncio's own cancellation "
+             "delivery and gather/shield semantics are modelled from their documentation and validated only by the trace "
+             "inclusion check (every trace observed on the real classes under the release-order controller must be "
+             "accepted by the model, which is the compiled acceptor) and by Python monitors of each clause.",
+        note="Trusted: Lean kernel (+propext, Classical.choice, Quot.sound); hand-written model Model/AsyncSched.lean "
+             "tied to /repo by trace inclusion on every explored schedule; harness/asyncctl.py (recorders, thin logging "
+             "subclass overriding cancel_running_transitions/_process_async/callbacks that only log and call super, Task "
+             "subclass logging cancel()); CPython frame inspection to attribute state writes to events. Known finding: a "
+             "cancellation that arrives while the event is in its finalize stage is swallowed (finalize callbacks "
+             "interrupted / never started, trigger returns the event's own result).",
+        technique="Lean 4 proof (invariants by induction over schedules) + controlled-scheduling trace inclusion + "
+                  "verified serial-order monitor + Python clause monitors",
+        engines=('async-controller',))
+    rule = ('random programs: 2-3 (thorough: up to 4) concurrently awaited triggers on 1-3 models of a flat AsyncMachine or a '
+            'HierarchicalAsyncMachine, queued False/True/"model", optional on_exception, protected tasks, callbacks in every '
+            'slot registered as plain function / coroutine / coroutine suspending on harness futures (0-2 suspension points '
+            'per event), raising callbacks, failing conditions, triggers awaited from callbacks (nested up to depth 2), '
+            'remove_model; for each program ALL release orders are enumerated (DFS over the pending futures at every '
+            'quiescence; capped per program, the cap and the number of completely enumerated programs are in '
+            'distribution.programs); a case = program + release order; non-trivial = a task was actually cancelled, or a '
+            'queued trigger arrived while another event of the machine was being processed; distinct = different JSON of '
+            '(program, release order)')
+    trusted = ('hand-written model lean/Model/AsyncSched.lean tied to /repo by trace inclusion (model = acceptor)',
+               'asyncio semantics (Task.cancel delivery, gather propagation) are not modelled beyond their documented '
+               'effect; they are what the inclusion check validates',
+               'harness/asyncctl.py: logging subclass + Task subclass + recorders; release-order controller uses '
+               'loop._ready to detect quiescence')
+
+    def assumptions(self):
+        return [
+            'asyncio cancellation delivery and gather/shield semantics are modelled from documentation and validated only by '
+            'trace inclusion (partial)',
+            '"returns False" is judged by truth value: HierarchicalAsyncMachine returns None (not False) when on_exception '
+            'swallows the CancelledError; queued machines return True from _process_async regardless of the event',
+            'an event cancelled while already in its finalize stage is the known finding (finalize interrupted, own result '
+            'returned); every other cancelled event must start all its finalize callbacks and return a false value',
+            'theorem C08_cancelled_behaviour takes `started (phase e)` (the event has entered _trigger) as an explicit '
+            'hypothesis; the full-strength CancelledReturnsFalse is refuted by C08_cancelled_returns_false_counterexample',
+            'programs: at most one raising / nested-trigger callback per event and stage, nested trigger is the last '
+            'action of its callback, events used are valid from every state (no MachineError path), remove_model only '
+            'with queued False/True; hierarchical machine without parallel states',
+            'after one callback of a gather stage raised, sibling callbacks that are still suspended may outlive the '
+            'event: their later completions are ignored (not covered by the statement)',
+        ]
+
+    def budget(self, tier):
+        # (chunks, programs per chunk, release orders per program)
+        return (32, 6, 40) if tier == 'quick' else (64, 30, 150)
+
+    def explore(self, tier, seed):
+        nch, per, cap = self.budget(tier)
+        payloads = [(seed, i, per, cap, (tier != 'quick' and i % 2 == 1)) for i in range(nch)]
+        ex = Exploration()
+        for part in runner.parallel(chunk, payloads):
+            ex.merge(part)
+        done = set()
+        for f in ex.failures:
+            key = (f.kind, f.what)
+            if key in done:
+                continue
+            done.add(key)
+            f.case = runner.shrink(f.case, fails_like(f.kind, f.what), shrink_steps, budget=150)
+            self.annotate(f)
+        return ex
+
+    def annotate(self, f):
+        (r, fs), = evaluate([f.case])
+        f.details['log'] = asyncctl.show(r.log)[:400]
+        f.details['failures'] = [[x.kind, x.what, x.details.get('detail')] for x in fs]
+
+    def search(self, tier, seed, failures):
+        found = []
+        # (i) the disagreeing inputs themselves and their release orders
+        for f in failures[:5]:
+            base = dict(f.case, schedule=[])
+            for c, r, fs in all_schedules(base, 200):
+                found += [x for x in fs if x.kind == 'monitor']
+                if found:
+                    break
+            if found:
+                break
+        # (ii) fresh programs
+        if not found:
+            payloads = [(seed + 7919, i, 12, 60, i % 2 == 1) for i in range(32)]
+            for part in runner.parallel(chunk, payloads):
+                found += [x for x in part.failures if x.kind == 'monitor']
+        for f in found[:1]:
+            f.case = runner.shrink(f.case, fails_like(f.kind, f.what), shrink_steps, budget=150)
+            self.annotate(f)
+        return found
+
+    def replay(self, path):
+        with open(path) as fh:
+            payload = json.load(fh)
+        if 'case' not in payload:
+            print('no concrete input in this replay file: broken obligation', payload.get('broken_obligation'))
+            return 1
+        (r, fs), = evaluate([payload['case']])
+        for l in asyncctl.show(r.log):
+            print('   ', l)
+        print('hang:', r.hang, 'final states:', r.final_states, 'async_tasks:', r.final_tasks)
+        for f in fs:
+            print('FAIL', f.kind, f.what, f.details.get('detail') or f.details.get('model'))
+        return 1 if fs else 0
+
+
+CHECK = C08()
